@@ -23,6 +23,7 @@ import SarpyModel.Drivers.XsdFmt
 import SarpyModel.Drivers.Kernels2
 import SarpyModel.Drivers.CheckerRules
 import SarpyModel.Drivers.CheckerGen
+import SarpyModel.Drivers.Tre
 namespace Sarpy.Drivers
 
 def step (line : String) : String :=
@@ -53,6 +54,7 @@ def step (line : String) : String :=
   | "k2" :: rest => (k2Step rest).getD "bad-op"
   | "chkspec" :: rest => (chkspecStep rest).getD "bad-op"
   | "chkgen" :: rest => (chkgenStep rest).getD "bad-op"
+  | "tre" :: rest => (treStep rest).getD "bad-op"
   | _ => "bad-op"
 
 partial def loop (h : IO.FS.Stream) : IO Unit := do
